@@ -446,14 +446,16 @@ Proof.
 Qed.
 
 (* ---- histories ---- *)
-Lemma rel_fresh st tr : rel st tr -> N.of_nat (length (drawn tr)) < two32 - 1 -> fresh st.
+Lemma rel_fresh k0 st tr : rel k0 st tr -> N.of_nat (length (drawn tr)) < two32 - 1 -> fresh st.
 Proof.
-  intros R Hn. destruct (r_drawn _ _ R) as [n [Hd Hs]]. rewrite Hd, length_first_serials in Hn.
+  intros R Hn. destruct (r_drawn _ _ _ R) as [n [Hd Hs]]. rewrite Hd, length_serials_from in Hn.
   unfold fresh. apply Forall_forall. intros c Hc.
   assert (Hin : In (c_serial c) (drawn tr)).
-  { apply call_serials_in_drawn. rewrite (r_serials _ _ R). unfold cores. rewrite map_map. apply (in_map c_serial) in Hc. exact Hc. }
-  rewrite Hd in Hin. unfold first_serials in Hin. apply in_map_iff in Hin. destruct Hin as [k [Hk Hkin]]. apply in_seq in Hkin.
-  rewrite Hs, <- Hk. intro E. apply spec_serial_inj in E; unfold M32; lia.
+  { apply call_serials_in_drawn. rewrite (r_serials _ _ _ R). unfold cores. rewrite map_map. apply (in_map c_serial) in Hc. exact Hc. }
+  rewrite Hd in Hin. apply serials_from_in in Hin. destruct Hin as [k [Hk Hks]].
+  rewrite Hs, Hks. intro E.
+  replace (k0 + N.of_nat n) with ((k0 + N.of_nat k) + N.of_nat (n - k)) in E by lia.
+  apply spec_serial_inj_window in E; unfold M32; lia.
 Qed.
 
 (* nobody waits for a call that has been cancelled (c_cancelled is set by ECancel and by nothing else) *)
@@ -463,11 +465,11 @@ Fixpoint well_behaved (st : state) (h : list event) : Prop :=
   | e :: r => well st e /\ well_behaved (fst (step st e)) r
   end.
 
-Lemma live_init : live_ok init.
+Lemma live_init b : live_ok (init_at b).
 Proof. intros _ i c Hn. destruct i; discriminate. Qed.
 
-Theorem no_fault_run h : forall st tr,
-  rel st tr -> N.of_nat (length (drawn (tr ++ snd (run st h)))) < two32 - 1 -> live_ok st -> fault st = 0 -> well_behaved st h ->
+Theorem no_fault_run k0 h : forall st tr,
+  rel k0 st tr -> N.of_nat (length (drawn (tr ++ snd (run st h)))) < two32 - 1 -> live_ok st -> fault st = 0 -> well_behaved st h ->
   fault (fst (run st h)) = 0.
 Proof.
   induction h as [|e h IH]; intros st tr R Hn L Hf Hw; simpl; auto.
@@ -475,14 +477,14 @@ Proof.
   destruct (step st e) as [st1 o1] eqn:E. simpl in Hw2.
   assert (Hn0 : N.of_nat (length (drawn tr)) < two32 - 1).
   { destruct (run st1 h) as [s2 o2]. simpl in Hn. rewrite drawn_app, app_length in Hn. unfold two32. lia. }
-  pose proof (r_ok _ _ R) as Hok.
+  pose proof (r_ok _ _ _ R) as Hok.
   assert (Hnd : nodup st) by (eapply rel_nodup; [exact R|unfold two32 in *; lia]).
-  pose proof (rel_fresh _ _ R Hn0) as Hfr.
+  pose proof (rel_fresh _ _ _ R Hn0) as Hfr.
   pose proof (live_step st e Hok Hnd Hfr L Hf Hw1) as [L1 Hf1]. rewrite E in L1, Hf1. simpl in L1, Hf1.
-  destruct (step_good _ _ _ _ E Hok) as [Hok1 S]. pose proof (rel_step _ _ _ _ R S Hok1) as R1.
+  destruct (step_good _ _ _ _ E Hok) as [Hok1 S]. pose proof (rel_step _ _ _ _ _ R S Hok1) as R1.
   specialize (IH st1 (tr ++ o1) R1).
   destruct (run st1 h) as [s2 o2]. simpl in *. apply IH; auto. rewrite <- app_assoc. exact Hn.
 Qed.
 
-Theorem no_fault_partial h : nowrap h -> well_behaved init h -> fault (fst (run init h)) = 0.
-Proof. intros Hn Hw. apply (no_fault_run h init []); auto using rel_init, live_init. Qed.
+Theorem no_fault_partial b h : valid_base b -> nowrap_at b h -> well_behaved (init_at b) h -> fault (fst (run (init_at b) h)) = 0.
+Proof. intros Hb Hn Hw. apply (no_fault_run (b - 1) h (init_at b) []); auto using rel_init_at, live_init. Qed.
